@@ -11,7 +11,7 @@
 //! (`vh::propagate_check`), legality of every stored operator against the sampler's own matrix
 //! elements, bond/position preservation for spin-only calls, fold output == Rust propagation.
 //!
-//! Modes: `walk` (random interleavings), `swapcut` (raw `swap_manager_and_state` between
+//! Modes: `swapwit` (fixed witness of finding F25), `walk` (random interleavings), `swapcut` (raw `swap_manager_and_state` between
 //! samplers with different cutoffs, then a diagonal sweep), `f12` (zero-word probing of every RNG
 //! draw of an RVB update: can a zero-weight operator be stored?).
 
@@ -1504,6 +1504,78 @@ fn log_prefix(sg: &serialization::SerializeQmcGraph<FastOps>, seed: u64, n: usiz
     log.into_iter().take(n).collect()
 }
 
+// ------------------------------------------------------------------------------------------
+// mode swapwit: ONE fixed, seed-independent witness for finding F25 (defect of the unchanged
+// library): `can_swap_managers` compares `longitudinal.signum()` and `0.0.signum() == 1.0`, so it
+// approves a direct swap between an h = 0 and an h > 0 sampler; the h = 0 sampler then stores
+// longitudinal-field operators, which are not terms of its Hamiltonian.
+// ------------------------------------------------------------------------------------------
+fn swapwit(ctx: &mut Ctx) {
+    let edges = vec![((0usize, 1usize), 1.0)];
+    let mut a = G::<RecRng>::new_with_rng(edges.clone(), 0.5, 0.0, 4, RecRng::new(1), Some(vec![false, true]));
+    let mut b = G::<RecRng>::new_with_rng(edges, 0.5, 0.5, 4, RecRng::new(2), Some(vec![true, true]));
+    let tok_a = ising_view(&a).token;
+    let tok_b = ising_view(&b).token;
+    let (nb_a, nb_b) = (ising_view(&a).nbonds, ising_view(&b).nbonds);
+    let field_ops = |g: &G<RecRng>| snap_g(g).ops.iter().filter(|o| o.bond >= 3).count();
+    let mut steps = 0;
+    while field_ops(&b) == 0 && steps < 1000 {
+        b.timestep(2.0);
+        steps += 1;
+    }
+    let can_ab = a.can_swap_managers(&b).is_ok();
+    let can_ba = b.can_swap_managers(&a).is_ok();
+    let nfield = field_ops(&b);
+    a.swap_manager_and_state(&mut b);
+    // the usual oracle, on the sampler with h = 0 and ITS Hamiltonian
+    let sa = snap_g(&a);
+    let fold = fold_g(&a);
+    let verdict = {
+        let hv = ising_view(&a);
+        oracle_config(a.get_manager_ref(), &sa, &hv, &fold)
+    };
+    // further facts about the unchanged library (for the notes; not part of the verdict)
+    let verify_says = a.verify();
+    let mut a2 = a.clone();
+    let next_step = catch(move || {
+        a2.timestep(2.0);
+        a2.verify()
+    });
+    let a3 = a.clone();
+    let conv = catch(move || {
+        let mut q = a3.into_qmc();
+        q.timestep(2.0);
+    });
+    let facts = format!(
+        "b stepped {} times at beta=2 until it held {} field op(s); can_swap_managers a->b {} b->a {}; after a.swap_manager_and_state(&mut b): a = {} ; a.verify() = {}; next a.timestep(2): {}; a.into_qmc() then timestep(2): {}",
+        steps,
+        nfield,
+        can_ab,
+        can_ba,
+        sa.text,
+        verify_says,
+        match &next_step {
+            Ok(v) => format!("no panic, verify() = {}", v),
+            Err(e) => format!("panicked: {}", e),
+        },
+        match &conv {
+            Ok(()) => "no panic".to_string(),
+            Err(e) => format!("panicked: {}", e),
+        }
+    );
+    stat("swapwit.field_ops_moved", nfield);
+    let oracle = match verdict {
+        Err(e) if can_ab && can_ba => Err(format!("{} ({}) [F25: can_swap_managers accepts h = 0 with h != 0]", e, facts)),
+        Err(e) => Err(format!("{} ({})", e, facts)),
+        Ok(()) => Ok(()),
+    };
+    // fixed input line: the two Hamiltonians only; the driver answers from the model of the guard
+    let input = format!("swapwit can_swap_managers+swap_manager_and_state {} {}", tok_a, tok_b);
+    let output = format!("can:{} can_rev:{} nbonds:{},{}", can_ab as u8, can_ba as u8, nb_a, nb_b);
+    emit(true, &input, &output, Some(oracle));
+    ctx.cases += 1;
+}
+
 /// Run one scenario; a panic that escapes the per-call guards (only possible once the real code
 /// misbehaves) is reported as a failing case instead of killing the harness.
 fn guarded(ctx: &mut Ctx, what: &str, f: impl FnOnce(&mut Ctx)) {
@@ -1565,6 +1637,7 @@ fn main() {
                 guarded(&mut ctx, "f12", |ctx| f12(ctx, &mut rr, 1));
             }
         }
+        "swapwit" => guarded(&mut ctx, "swapwit", |ctx| swapwit(ctx)),
         m => {
             eprintln!("unknown mode {}", m);
             std::process::exit(2);
